@@ -4,7 +4,8 @@
   overall sign; the class-level unit-quaternion product / inverse are the (re-normalised) Hamilton product / conjugate;
   `==` on unit quaternions ignores the overall sign; the Rx/Ry/Rz constructors of UnitQuaternion and of SO3/SE3 give the
   same rotation; the embedding SO3 → SE3 is a homomorphism preserving the action on points.
-  Explored (smv/props/c04.py, 1e-6): matrix → quaternion (`r2q`, 40 branches) round trips, twist and dual-quaternion routes,
+  `r2q` (all 40 branches) inverts `q2r` up to the overall sign on every unit quaternion (r2q_q2r).
+  Explored (smv/props/c04.py, 1e-6): r2q on matrices that are not exactly q2r of a unit quaternion, twist and dual-quaternion routes,
   RPY / Eul / AngVec / OA constructors of UnitQuaternion (they go through r2q), expression trees.
 -/
 import SmVerif.Bridge.Quat
@@ -12,9 +13,12 @@ import SmVerif.Bridge.Rot
 import SmVerif.Bridge.Poses
 import SmVerif.Gen.Quats
 import SmVerif.Spec.PrimLaws
+import SmVerif.Spec.Rodrigues
 import SmVerif.Props.C14
 import Mathlib.Tactic.NormNum
 import Mathlib.Tactic.Linarith
+import Mathlib.Tactic.LinearCombination
+import Mathlib.Tactic.FieldSimp
 
 namespace SmVerif.Props.C04
 open SmVerif SmVerif.Spec SmVerif.Bridge
@@ -116,4 +120,218 @@ theorem embed_SO3_hom (A B : Mat 3 3 R) : mmul (rt3 A zero3) (rt3 B zero3) = rt3
 theorem embed_SO3_points (A : Mat 3 3 R) (p : Vec 3 R) : act3 (rt3 A zero3) p = mvec A p := by
   funext i; fin_cases i <;> simp [act3, rotOf3_rt3, trOf3_rt3, zero3]
 
+/-! ### matrix → quaternion -/
+set_option maxHeartbeats 4000000
+
+theorem sqrt_unique0 (hS : P.Sqrt) (x r : R) (hx : 0 ≤ x) (hr : 0 ≤ r) (h : r * r = x) : P.sqrt x = r := by
+  have h1 := hS.mul_self x hx; have h0 := hS.nonneg x
+  have : (P.sqrt x - r) * (P.sqrt x + r) = 0 := by linear_combination h1 - h
+  rcases mul_eq_zero.mp this with h2 | h2
+  · linarith
+  · linarith
+
+/-- one leaf of r2q on the image of q2r (trace + 1 > 0 side): the computed quaternion is ±q -/
+theorem r2q_leaf (hS : P.Sqrt) (s x y z c T K0 K1 K2 : R) (hn : s * s + x * x + y * y + z * z = 1)
+    (hT : T = 4 * (s * s)) (h0 : K0 = c * x) (h1 : K1 = c * y) (h2 : K2 = c * z) (hcs : 0 ≤ c * s)
+    (hnm : ¬ |P.sqrt (K0 * K0 + K1 * K1 + K2 * K2)| < (25 : R) / 1125899906842624) :
+    v4 (P.sqrt T / 2) (P.sqrt (1 - (P.sqrt T / 2) ^ 2) / P.sqrt (K0 * K0 + K1 * K1 + K2 * K2) * K0)
+       (P.sqrt (1 - (P.sqrt T / 2) ^ 2) / P.sqrt (K0 * K0 + K1 * K1 + K2 * K2) * K1)
+       (P.sqrt (1 - (P.sqrt T / 2) ^ 2) / P.sqrt (K0 * K0 + K1 * K1 + K2 * K2) * K2) = v4 s x y z ∨
+    v4 (P.sqrt T / 2) (P.sqrt (1 - (P.sqrt T / 2) ^ 2) / P.sqrt (K0 * K0 + K1 * K1 + K2 * K2) * K0)
+       (P.sqrt (1 - (P.sqrt T / 2) ^ 2) / P.sqrt (K0 * K0 + K1 * K1 + K2 * K2) * K1)
+       (P.sqrt (1 - (P.sqrt T / 2) ^ 2) / P.sqrt (K0 * K0 + K1 * K1 + K2 * K2) * K2) = v4 (-s) (-x) (-y) (-z) := by
+  set V := x * x + y * y + z * z with hV
+  have hV0 : 0 ≤ V := by rw [hV]; exact add_nonneg (add_nonneg (mul_self_nonneg _) (mul_self_nonneg _)) (mul_self_nonneg _)
+  have hKK : K0 * K0 + K1 * K1 + K2 * K2 = (c * c) * V := by rw [h0, h1, h2, hV]; ring
+  rw [hKK] at hnm ⊢
+  have hnn := hS.nonneg ((c * c) * V)
+  have hpos : 0 < P.sqrt ((c * c) * V) := by
+    rw [abs_of_nonneg hnn] at hnm; rw [not_lt] at hnm
+    exact lt_of_lt_of_le (by norm_num) hnm
+  have hcV : 0 ≤ (c * c) * V := mul_nonneg (mul_self_nonneg c) hV0
+  have hsq := hS.mul_self _ hcV
+  have hcVne : (c * c) * V ≠ 0 := by
+    intro h; rw [h] at hsq hpos; have := mul_self_eq_zero.mp hsq; linarith
+  have hc : c ≠ 0 := by intro h; apply hcVne; rw [h]; ring
+  have hVne : V ≠ 0 := by intro h; apply hcVne; rw [h]; ring
+  have hVpos : 0 < V := lt_of_le_of_ne hV0 (Ne.symm hVne)
+  set w := P.sqrt V with hw
+  have hw0 := hS.nonneg V
+  have hww := hS.mul_self V hV0
+  have hwpos : 0 < w := by
+    rcases (lt_or_eq_of_le hw0) with h | h
+    · exact h
+    · exfalso; rw [← h] at hww; apply hVne; linarith
+  have hnmv : P.sqrt ((c * c) * V) = |c| * w := by
+    apply sqrt_unique0 P hS _ _ hcV (mul_nonneg (abs_nonneg c) hw0)
+    have : |c| * |c| = c * c := abs_mul_abs_self c
+    linear_combination (w * w) * this + (c * c) * hww
+  have hqs : P.sqrt T = 2 * |s| := by
+    apply sqrt_unique0 P hS _ _ (by rw [hT]; exact mul_nonneg (by norm_num) (mul_self_nonneg s)) (mul_nonneg (by norm_num) (abs_nonneg s))
+    have : |s| * |s| = s * s := abs_mul_abs_self s
+    rw [hT]; linear_combination 4 * this
+  have h1s : (1 : R) - (P.sqrt T / 2) ^ 2 = V := by
+    have : |s| * |s| = s * s := abs_mul_abs_self s
+    rw [hqs, hV]; linear_combination (-1 : R) * hn - this
+  rw [h1s, hnmv, hqs, h0, h1, h2]
+  have hwne : w ≠ 0 := ne_of_gt hwpos
+  rcases lt_or_gt_of_ne hc with hcn | hcp
+  · right
+    have hs : s ≤ 0 := by
+      by_contra h; rw [not_le] at h; have := mul_neg_of_neg_of_pos hcn h; linarith
+    rw [abs_of_neg hcn, abs_of_nonpos hs]
+    have e : ∀ t : R, w / (-c * w) * (c * t) = -t := by intro t; field_simp
+    rw [e, e, e]; congr 1; ring
+  · left
+    have hs : 0 ≤ s := by
+      by_contra h; rw [not_le] at h; have := mul_neg_of_pos_of_neg hcp h; linarith
+    rw [abs_of_pos hcp, abs_of_nonneg hs]
+    have e : ∀ t : R, w / (c * w) * (c * t) = t := by intro t; field_simp
+    rw [e, e, e]; congr 1; ring
+
+/-- one leaf of r2q on the image of q2r when trace + 1 ≤ 0 (a half turn, s = 0) -/
+theorem r2q_leaf0 (hS : P.Sqrt) (s x y z c T K0 K1 K2 : R) (hn : s * s + x * x + y * y + z * z = 1)
+    (hT : T = 4 * (s * s)) (hT0 : ¬ T > 0) (h0 : K0 = c * x) (h1 : K1 = c * y) (h2 : K2 = c * z)
+    (hnm : ¬ |P.sqrt (K0 * K0 + K1 * K1 + K2 * K2)| < (25 : R) / 1125899906842624) :
+    v4 (0 : R) (1 / P.sqrt (K0 * K0 + K1 * K1 + K2 * K2) * K0) (1 / P.sqrt (K0 * K0 + K1 * K1 + K2 * K2) * K1)
+       (1 / P.sqrt (K0 * K0 + K1 * K1 + K2 * K2) * K2) = v4 s x y z ∨
+    v4 (0 : R) (1 / P.sqrt (K0 * K0 + K1 * K1 + K2 * K2) * K0) (1 / P.sqrt (K0 * K0 + K1 * K1 + K2 * K2) * K1)
+       (1 / P.sqrt (K0 * K0 + K1 * K1 + K2 * K2) * K2) = v4 (-s) (-x) (-y) (-z) := by
+  have hs : s = 0 := by
+    rw [hT, gt_iff_lt, not_lt] at hT0
+    have := mul_self_nonneg s
+    exact mul_self_eq_zero.mp (by linarith)
+  subst hs
+  have hV : x * x + y * y + z * z = 1 := by linear_combination hn
+  have hKK : K0 * K0 + K1 * K1 + K2 * K2 = c * c := by rw [h0, h1, h2]; linear_combination (c * c) * hV
+  rw [hKK] at hnm ⊢
+  have hnmv : P.sqrt (c * c) = |c| := sqrt_unique0 P hS _ _ (mul_self_nonneg c) (abs_nonneg c) (abs_mul_abs_self c)
+  rw [hnmv] at hnm ⊢
+  have hc : c ≠ 0 := by
+    intro h; apply hnm; rw [h]; simp
+  rw [h0, h1, h2]
+  rcases lt_or_gt_of_ne hc with hcn | hcp
+  · right; rw [abs_of_neg hcn]
+    have e : ∀ t : R, 1 / (-c) * (c * t) = -t := by intro t; field_simp
+    rw [e, e, e]; congr 1; ring
+  · left; rw [abs_of_pos hcp]
+    have e : ∀ t : R, 1 / c * (c * t) = t := by intro t; field_simp
+    rw [e, e, e]
+
+
+/-- when r2q takes its near-identity short cut the vector part is tiny: 16·|v|⁴ < 3·tol² -/
+theorem r2q_shortcut_leaf (hS : P.Sqrt) (x y z c t K0 K1 K2 : R)
+    (h0 : K0 = c * x) (h1 : K1 = c * y) (h2 : K2 = c * z) (hc : 16 * (t * t) ≤ c * c) (ht : x * x + y * y + z * z ≤ 3 * (t * t))
+    (hnm : |P.sqrt (K0 * K0 + K1 * K1 + K2 * K2)| < (25 : R) / 1125899906842624) :
+    16 * ((x * x + y * y + z * z) * (x * x + y * y + z * z)) < 3 * ((25 : R) / 1125899906842624) ^ 2 := by
+  set V := x * x + y * y + z * z with hV
+  have hV0 : 0 ≤ V := by rw [hV]; exact add_nonneg (add_nonneg (mul_self_nonneg _) (mul_self_nonneg _)) (mul_self_nonneg _)
+  have hKK : K0 * K0 + K1 * K1 + K2 * K2 = (c * c) * V := by rw [h0, h1, h2, hV]; ring
+  rw [hKK] at hnm
+  have hnn := hS.nonneg ((c * c) * V)
+  rw [abs_of_nonneg hnn] at hnm
+  have hcV : 0 ≤ (c * c) * V := mul_nonneg (mul_self_nonneg c) hV0
+  have hsq := hS.mul_self _ hcV
+  have h3 : (c * c) * V < ((25 : R) / 1125899906842624) ^ 2 := by
+    rw [← hsq, sq]; exact mul_self_lt_mul_self hnn hnm
+  have h4 : 16 * (V * V) ≤ 3 * ((c * c) * V) := by
+    have a1 : 16 * (t * t) * V ≤ (c * c) * V := mul_le_mul_of_nonneg_right hc hV0
+    have a2 : V * V ≤ 3 * (t * t) * V := mul_le_mul_of_nonneg_right ht hV0
+    linarith
+  linarith
+
+/-- r2q on a matrix whose entries are those of q2r(s, x, y, z) for a unit quaternion returns ±(s, x, y, z);
+    the identity quaternion is returned instead only when the near-identity short cut is taken, and then the
+    vector part is below the tolerance: 16·|v|⁴ < 3·tol² -/
+theorem r2q_of_q2r_entries (hS : P.Sqrt) (s x y z : R) (hn : s * s + x * x + y * y + z * z = 1) (m : Mat 3 3 R)
+    (e00 : m 0 0 = 1 - 2 * (y ^ 2 + z ^ 2)) (e01 : m 0 1 = 2 * (x * y - s * z)) (e02 : m 0 2 = 2 * (x * z + s * y))
+    (e10 : m 1 0 = 2 * (x * y + s * z)) (e11 : m 1 1 = 1 - 2 * (x ^ 2 + z ^ 2)) (e12 : m 1 2 = 2 * (y * z - s * x))
+    (e20 : m 2 0 = 2 * (x * z - s * y)) (e21 : m 2 1 = 2 * (y * z + s * x)) (e22 : m 2 2 = 1 - 2 * (x ^ 2 + y ^ 2))
+    (q' : Vec 4 R) (h : Gen.r2q P m = .ok q') :
+    q' = v4 s x y z ∨ q' = v4 (-s) (-x) (-y) (-z) ∨
+    (q' = v4 1 0 0 0 ∧ 16 * ((x * x + y * y + z * z) * (x * x + y * y + z * z)) < 3 * ((25 : R) / 1125899906842624) ^ 2) := by
+  have wrap : ∀ v : Vec 4 R, (v = v4 s x y z ∨ v = v4 (-s) (-x) (-y) (-z)) →
+      (v = v4 s x y z ∨ v = v4 (-s) (-x) (-y) (-z) ∨
+       (v = v4 1 0 0 0 ∧ 16 * ((x * x + y * y + z * z) * (x * x + y * y + z * z)) < 3 * ((25 : R) / 1125899906842624) ^ 2)) := by
+    intro v hv; rcases hv with h | h
+    · exact Or.inl h
+    · exact Or.inr (Or.inl h)
+  unfold Gen.r2q at h; simp only [] at h
+  split_ifs at h with c1 c2 c3 c4 c5 c6 c7 c8 c9 <;> cases h
+  all_goals simp only [e00, e01, e02, e10, e11, e12, e20, e21, e22] at *
+  all_goals first
+    | (refine Or.inr (Or.inr ⟨trivial, r2q_shortcut_leaf P hS x y z (4 * (s + x)) x _ _ _ ?_ ?_ ?_ ?_ ?_ (by assumption)⟩) <;> (first | ring1 | linarith | nlinarith [mul_self_nonneg s]))
+    | (refine Or.inr (Or.inr ⟨trivial, r2q_shortcut_leaf P hS x y z (4 * (s - x)) x _ _ _ ?_ ?_ ?_ ?_ ?_ (by assumption)⟩) <;> (first | ring1 | linarith | nlinarith [mul_self_nonneg s]))
+    | (refine Or.inr (Or.inr ⟨trivial, r2q_shortcut_leaf P hS x y z (4 * (s + y)) y _ _ _ ?_ ?_ ?_ ?_ ?_ (by assumption)⟩) <;> (first | ring1 | linarith | nlinarith [mul_self_nonneg s]))
+    | (refine Or.inr (Or.inr ⟨trivial, r2q_shortcut_leaf P hS x y z (4 * (s - y)) y _ _ _ ?_ ?_ ?_ ?_ ?_ (by assumption)⟩) <;> (first | ring1 | linarith | nlinarith [mul_self_nonneg s]))
+    | (refine Or.inr (Or.inr ⟨trivial, r2q_shortcut_leaf P hS x y z (4 * (s + z)) z _ _ _ ?_ ?_ ?_ ?_ ?_ (by assumption)⟩) <;> (first | ring1 | linarith | nlinarith [mul_self_nonneg s]))
+    | (refine Or.inr (Or.inr ⟨trivial, r2q_shortcut_leaf P hS x y z (4 * (s - z)) z _ _ _ ?_ ?_ ?_ ?_ ?_ (by assumption)⟩) <;> (first | ring1 | linarith | nlinarith [mul_self_nonneg s]))
+    | (refine wrap _ (r2q_leaf P hS s x y z (4 * (s + x)) _ _ _ _ hn ?_ ?_ ?_ ?_ ?_ (by assumption)) <;> (first | ring1 | linear_combination (-4 : R) * hn | nlinarith [mul_self_nonneg s]))
+    | (refine wrap _ (r2q_leaf P hS s x y z (4 * (s - x)) _ _ _ _ hn ?_ ?_ ?_ ?_ ?_ (by assumption)) <;> (first | ring1 | linear_combination (-4 : R) * hn | nlinarith [mul_self_nonneg s]))
+    | (refine wrap _ (r2q_leaf P hS s x y z (4 * (s + y)) _ _ _ _ hn ?_ ?_ ?_ ?_ ?_ (by assumption)) <;> (first | ring1 | linear_combination (-4 : R) * hn | nlinarith [mul_self_nonneg s]))
+    | (refine wrap _ (r2q_leaf P hS s x y z (4 * (s - y)) _ _ _ _ hn ?_ ?_ ?_ ?_ ?_ (by assumption)) <;> (first | ring1 | linear_combination (-4 : R) * hn | nlinarith [mul_self_nonneg s]))
+    | (refine wrap _ (r2q_leaf P hS s x y z (4 * (s + z)) _ _ _ _ hn ?_ ?_ ?_ ?_ ?_ (by assumption)) <;> (first | ring1 | linear_combination (-4 : R) * hn | nlinarith [mul_self_nonneg s]))
+    | (refine wrap _ (r2q_leaf P hS s x y z (4 * (s - z)) _ _ _ _ hn ?_ ?_ ?_ ?_ ?_ (by assumption)) <;> (first | ring1 | linear_combination (-4 : R) * hn | nlinarith [mul_self_nonneg s]))
+    | (refine wrap _ (r2q_leaf0 P hS s x y z (4 * (s + x)) _ _ _ _ hn ?_ (by assumption) ?_ ?_ ?_ (by assumption)) <;> (first | ring1 | linear_combination (-4 : R) * hn | nlinarith [mul_self_nonneg s]))
+    | (refine wrap _ (r2q_leaf0 P hS s x y z (4 * (s - x)) _ _ _ _ hn ?_ (by assumption) ?_ ?_ ?_ (by assumption)) <;> (first | ring1 | linear_combination (-4 : R) * hn | nlinarith [mul_self_nonneg s]))
+    | (refine wrap _ (r2q_leaf0 P hS s x y z (4 * (s + y)) _ _ _ _ hn ?_ (by assumption) ?_ ?_ ?_ (by assumption)) <;> (first | ring1 | linear_combination (-4 : R) * hn | nlinarith [mul_self_nonneg s]))
+    | (refine wrap _ (r2q_leaf0 P hS s x y z (4 * (s - y)) _ _ _ _ hn ?_ (by assumption) ?_ ?_ ?_ (by assumption)) <;> (first | ring1 | linear_combination (-4 : R) * hn | nlinarith [mul_self_nonneg s]))
+    | (refine wrap _ (r2q_leaf0 P hS s x y z (4 * (s + z)) _ _ _ _ hn ?_ (by assumption) ?_ ?_ ?_ (by assumption)) <;> (first | ring1 | linear_combination (-4 : R) * hn | nlinarith [mul_self_nonneg s]))
+    | (refine wrap _ (r2q_leaf0 P hS s x y z (4 * (s - z)) _ _ _ _ hn ?_ (by assumption) ?_ ?_ ?_ (by assumption)) <;> (first | ring1 | linear_combination (-4 : R) * hn | nlinarith [mul_self_nonneg s]))
+
+/-- **matrix → quaternion inverts quaternion → matrix up to the overall sign**: for every unit quaternion q,
+    r2q(q2r(q)) is q or −q (the same rotation); the identity quaternion is returned instead only when the vector
+    part of q is below r2q's near-identity tolerance -/
+theorem r2q_q2r (hS : P.Sqrt) (q : Vec 4 R) (hn : qnormsq q = 1) (A : Mat 3 3 R) (hA : Gen.q2r P q = .ok A)
+    (q' : Vec 4 R) (h : Gen.r2q P A = .ok q') :
+    q' = q ∨ q' = (fun i => -(q i)) ∨
+    (q' = v4 1 0 0 0 ∧ 16 * ((q 1 * q 1 + q 2 * q 2 + q 3 * q 3) * (q 1 * q 1 + q 2 * q 2 + q 3 * q 3)) < 3 * ((25 : R) / 1125899906842624) ^ 2) := by
+  unfold Gen.q2r at hA; simp only [] at hA; cases hA
+  have e1 : q = v4 (q 0) (q 1) (q 2) (q 3) := by funext i; fin_cases i <;> rfl
+  have e2 : (fun i => -(q i)) = v4 (-(q 0)) (-(q 1)) (-(q 2)) (-(q 3)) := by funext i; fin_cases i <;> rfl
+  rw [e2]; nth_rewrite 1 [e1]
+  refine r2q_of_q2r_entries P hS (q 0) (q 1) (q 2) (q 3) (by unfold qnormsq at hn; linear_combination hn) _
+    ?_ ?_ ?_ ?_ ?_ ?_ ?_ ?_ ?_ q' h <;> simp <;> ring
+/-! ### rotation-vector constructors agree across classes -/
+
+/-- the quaternion (cos h, sin h · u) maps to Rodrigues' matrix about u with cos θ = cos²h − sin²h, sin θ = 2 sin h cos h -/
+theorem q2r_axis_angle (u : Vec 3 R) (ch sh c s : R) (hcs : ch * ch + sh * sh = 1) (hc : c = ch * ch - sh * sh) (hs : s = 2 * sh * ch) :
+    Spec.q2r (v4 ch (sh * u 0) (sh * u 1) (sh * u 2)) = rodM u c s := by
+  subst hc; subst hs
+  apply Mat.ext33' <;> simp [Spec.q2r, rodM, mmul, skew3, one3, Fin.sum_univ_three] <;>
+    first | ring1 | linear_combination (u 1 * u 1 + u 2 * u 2) * hcs | linear_combination (u 0 * u 0 + u 2 * u 2) * hcs
+          | linear_combination (u 0 * u 0 + u 1 * u 1) * hcs | linear_combination (-(u 1 * u 1 + u 2 * u 2)) * hcs
+          | linear_combination (-(u 0 * u 0 + u 2 * u 2)) * hcs | linear_combination (-(u 0 * u 0 + u 1 * u 1)) * hcs
+          | linear_combination (u 0 * u 1) * hcs | linear_combination (u 0 * u 2) * hcs | linear_combination (u 1 * u 2) * hcs
+          | linear_combination (-(u 0 * u 1)) * hcs | linear_combination (-(u 0 * u 2)) * hcs | linear_combination (-(u 1 * u 2)) * hcs
+
+/-- **UnitQuaternion.EulerVec(w) and SO3.EulerVec(w) are the same rotation** for every rotation vector w
+    (both are the identity below the zero threshold) -/
+theorem UQ_EulerVec_agrees (hT : P.Trig) (hS : P.Sqrt) (hH : HalfAngle P) (w : Vec 3 R) (q : Vec 4 R)
+    (h : Gen.UQ_EulerVec P w = .ok q) : Gen.q2r P q = Gen.SO3_EulerVec P w := by
+  unfold Gen.UQ_EulerVec at h; unfold Gen.SO3_EulerVec; simp only [] at h ⊢
+  set n := P.sqrt (w 0 * w 0 + w 1 * w 1 + w 2 * w 2) with hn
+  by_cases h1 : n < (5 : R) / 2251799813685248
+  · rw [if_pos h1] at h ⊢; cases h
+    rw [Bridge.q2r]; congr 1; apply Mat.ext33' <;> simp [Spec.q2r]
+  · rw [if_neg h1] at h ⊢
+    have hpos : 0 < n := lt_of_lt_of_le (by norm_num) (not_lt.mp h1)
+    have hne : n ≠ 0 := ne_of_gt hpos
+    have hnn : n * n = w 0 * w 0 + w 1 * w 1 + w 2 * w 2 :=
+      hS.mul_self _ (add_nonneg (add_nonneg (mul_self_nonneg _) (mul_self_nonneg _)) (mul_self_nonneg _))
+    have htr := hT (n / 2)
+    have hone : P.cos (n / 2) * P.cos (n / 2) + P.sin (n / 2) * w 0 / n * (P.sin (n / 2) * w 0 / n) +
+        P.sin (n / 2) * w 1 / n * (P.sin (n / 2) * w 1 / n) + P.sin (n / 2) * w 2 / n * (P.sin (n / 2) * w 2 / n) = 1 := by
+      field_simp
+      linear_combination (n * n) * htr - (P.sin (n / 2)) ^ 2 * hnn
+    rw [hone, Props.C14.sqrt_one P hS] at h
+    have : ¬ (|(1 : R)| < 5 / 2251799813685248) := by rw [abs_one]; norm_num
+    rw [if_neg this] at h; cases h
+    rw [Bridge.q2r]
+    have e : (v4 (P.cos (n / 2) / 1) (P.sin (n / 2) * w 0 / n / 1) (P.sin (n / 2) * w 1 / n / 1) (P.sin (n / 2) * w 2 / n / 1) : Vec 4 R)
+        = v4 (P.cos (n / 2)) (P.sin (n / 2) * (fun i => w i / n) 0) (P.sin (n / 2) * (fun i => w i / n) 1) (P.sin (n / 2) * (fun i => w i / n) 2) := by
+      funext i; fin_cases i <;> simp <;> ring
+    rw [e, q2r_axis_angle (fun i => w i / n) (P.cos (n / 2)) (P.sin (n / 2)) (P.cos n) (P.sin n) htr (hH.cos_eq n) (hH.sin_eq n)]
+    congr 1
+    apply Mat.ext33' <;> simp [rodM, mmul, skew3, one3, Fin.sum_univ_three] <;> ring
 end SmVerif.Props.C04
